@@ -245,6 +245,14 @@ func codeNames(f *fg.File, fn *ast.FuncDecl) []string {
 	return out
 }
 
+// has: whitespace-insensitive containment of a source snippet in the printed node
+func has(text, snippet string) bool {
+	strip := func(x string) string {
+		return strings.Join(strings.Fields(x), "")
+	}
+	return strings.Contains(strip(text), strip(snippet))
+}
+
 func leanStrList(xs []string) string {
 	q := make([]string, len(xs))
 	for i, x := range xs {
@@ -378,6 +386,83 @@ func c02(repo string, out *fg.Out) error {
 	}
 	fmt.Fprintf(L, "def nonArrayDupFallsBack : Bool := %v\n\n", dupFalls)
 	out.JSON["nonArrayDupFallsBack"] = dupFalls
+
+	// --- WAL record of a write: which function does ArrowBuffer.Write hand each record kind to, and
+	// does the raw client payload travel with it?
+	wfn := awF.FuncDecl("ArrowBuffer", "Write")
+	if wfn == nil {
+		return fmt.Errorf("func (*ArrowBuffer) Write not found in arrow_writer.go")
+	}
+	var wts *ast.TypeSwitchStmt
+	ast.Inspect(wfn, func(x ast.Node) bool {
+		if t, ok := x.(*ast.TypeSwitchStmt); ok && wts == nil {
+			wts = t
+		}
+		return true
+	})
+	if wts == nil {
+		return fmt.Errorf("ArrowBuffer.Write: record type switch not found")
+	}
+	dispatch := map[string]*ast.CallExpr{}
+	for _, c := range wts.Body.List {
+		cc := c.(*ast.CaseClause)
+		if len(cc.List) != 1 {
+			continue
+		}
+		tn := awF.Text(cc.List[0])
+		var call *ast.CallExpr
+		ast.Inspect(cc, func(x ast.Node) bool {
+			if ce, ok := x.(*ast.CallExpr); ok && call == nil {
+				if se, ok := ce.Fun.(*ast.SelectorExpr); ok {
+					if id, ok := se.X.(*ast.Ident); ok && id.Name == "b" {
+						call = ce
+					}
+				}
+			}
+			return true
+		})
+		if call != nil {
+			dispatch[tn] = call
+		}
+	}
+	tc, ok1 := dispatch["*TypedColumnarRecord"]
+	gc, ok2 := dispatch["*models.ColumnarRecord"]
+	if !ok1 || !ok2 {
+		return fmt.Errorf("ArrowBuffer.Write: cases *TypedColumnarRecord / *models.ColumnarRecord with a b.<fn>(…) call not found")
+	}
+	typedFn := tc.Fun.(*ast.SelectorExpr).Sel.Name
+	genFn := gc.Fun.(*ast.SelectorExpr).Sel.Name
+	passesRaw := false
+	for _, a := range tc.Args {
+		if awF.Text(a) == "r.RawPayload" {
+			passesRaw = true
+		}
+	}
+	// the callee must log the raw bytes when it has them: `if len(rawPayload) > 0 { … AppendRawWithMeta(database, rawPayload)`
+	rawLogs := false
+	if rf := awF.FuncDecl("ArrowBuffer", typedFn); rf != nil {
+		t := awF.Text(rf)
+		rawLogs = has(t, "len(rawPayload) > 0") && has(t, "AppendRawWithMeta(database, rawPayload)")
+	}
+	gi := awF.FuncDecl("ArrowBuffer", "writeColumnarInternal")
+	if gi == nil {
+		return fmt.Errorf("func writeColumnarInternal not found")
+	}
+	git := awF.Text(gi)
+	genRawLogs := genFn == "writeColumnar" && has(git, "len(record.RawPayload) > 0") &&
+		has(git, "AppendRawWithMeta(database, record.RawPayload)")
+	// both decoders put the request body into RawPayload
+	typedCarries := has(typedF.Text(typedF.FuncDecl("MessagePackDecoder", "tryDecodeColumnarTyped")), "RawPayload: data,")
+	genCarries := has(genF.Text(genF.FuncDecl("MessagePackDecoder", "decodeColumnar")), "RawPayload: rawData,") &&
+		has(genF.Text(genF.FuncDecl("MessagePackDecoder", "Decode")), "d.decodeMapPayload(payload, data)")
+	fmt.Fprintf(L, "def typedWriteFn : String := %s\n", fg.LeanStr(typedFn))
+	fmt.Fprintf(L, "def genericWriteFn : String := %s\n", fg.LeanStr(genFn))
+	fmt.Fprintf(L, "def typedWriteLogsRaw : Bool := %v\n", passesRaw && rawLogs && typedCarries)
+	fmt.Fprintf(L, "def genericWriteLogsRaw : Bool := %v\n\n", genRawLogs && genCarries)
+	out.JSON["typedWriteFn"] = typedFn
+	out.JSON["genericWriteFn"] = genFn
+	out.JSON["typedWriteLogsRaw"] = passesRaw && rawLogs && typedCarries
+	out.JSON["genericWriteLogsRaw"] = genRawLogs && genCarries
 
 	// --- accepted dynamic types
 	for _, it := range []struct {
